@@ -37,6 +37,17 @@ def distinct_calls(files):
     return len(seen)
 
 
+def total_calls(files):
+    n = 0
+    for f in files:
+        with open(f) as fh:
+            for l in fh:
+                e = json.loads(l)
+                if e.get("ev") == "multi":
+                    n += len(e["calls"])
+    return n
+
+
 def distinct_lines(files, drop=()):
     """Measured: number of distinct recorded lines (ignoring the fields in `drop`)."""
     seen = set()
@@ -278,14 +289,45 @@ def events_trace(ck, name, sub, args, spec, cfg, what, shards=1, workers=NCPU, s
     return st
 
 
-def streams(ck, name, family, scale=1, faults=False, maxstream=4, sizes="1,2,3", shards=NCPU):
+def generated_streams(ck, name, maxstream=3, faults=True, shards=NCPU):
+    """B4: TLC enumerates every behaviour of ACStream within the bounds (GenStream.tla prints
+    one REPLAY line per behaviour: read sizes, failing read, failing emission, and what the
+    specification says happens); each is executed on the real code with a reader returning
+    exactly those sizes, and the recorded run is validated by TraceStream incl. the expectation."""
+    cfg = write_cfg("gen_" + name, spec="HSpec",
+                    constants={"Sigma": "{97, 98}", "MaxPats": 2, "MaxPatLen": 2, "MaxStream": maxstream,
+                               "CIs": "{FALSE}", "CapExtra": "{1, 2}", "MaxFaults": 1 if faults else 0},
+                    invariants=["Emitted", "ChunkConcat", "MatchPrefix", "Complete", "Indices"])
+    res = run_tlc("GenStream", cfg, "gen_" + name, workers=NCPU, timeout=1500, xmx="8g")
+    ck.add_tlc(res)
+    if res.violated:
+        ck.violation("GenStream violates %s" % res.violated,
+                     {"signature": "model:GenStream", "trace": res.out.splitlines()[-80:]})
+        return
+    rows = res.tagged("REPLAY")
+    if not rows:
+        raise ToolError("GenStream produced no behaviours")
+    rows.sort(key=lambda r: json.dumps(r["pats"]))
+    wd = workdir("stream_" + name)
+    rf = os.path.join(wd, "replay.ndjson")
+    with open(rf, "w") as f:
+        for r in rows:
+            f.write(json.dumps(r) + "\n")
+    ck.stage("B4-generate", behaviours=len(rows), model_states=res.distinct, wall=round(res.wall, 1))
+    ck.sample({"tlc_generated_behaviour": rows[len(rows) // 2]})
+    return streams(ck, name, "replay", shards=shards, replay_file=rf, stage="B4-replay")
+
+
+def streams(ck, name, family, scale=1, faults=False, maxstream=4, sizes="1,2,3", shards=NCPU,
+            replay_file="", stage="B3-stream"):
     """B3 for streams: every recorded run of the real stream search/replacement is
     replayed through ACStream's actions by TLC (TraceStream.tla)."""
-    wd = workdir("stream_" + name)
+    wd = os.path.join(WORK, "stream_" + name) if replay_file else workdir("stream_" + name)
     prefix = os.path.join(wd, "trace")
     st = run_harness(["stream", "--family", family, "--out", prefix, "--shards", shards,
                       "--seed", seed(), "--scale", scale, "--faults", "true" if faults else "false",
-                      "--maxstream", maxstream, "--sizes", sizes])
+                      "--maxstream", maxstream, "--sizes", sizes] +
+                     (["--replay-file", replay_file] if replay_file else []))
     jobs, files, nlines = [], [], []
     for i in range(shards):
         f = "%s.%d.ndjson" % (prefix, i)
@@ -327,7 +369,7 @@ def streams(ck, name, family, scale=1, faults=False, maxstream=4, sizes="1,2,3",
     ck.traces += st.get("events", 0)
     ck.evaluations += st.get("events", 0)
     ck.distinct += distinct_lines(files, ("c",))
-    ck.stage("B3-stream", family=family, scale=scale, faults=faults, contexts=st.get("contexts"),
+    ck.stage(stage, family=family, scale=scale, faults=faults, contexts=st.get("contexts"),
              runs=st.get("events"), rejected=nrej,
              replay_states=sum(r.distinct for r in results),
              wall=round(max([r.wall for r in results] or [0]), 1))
@@ -368,6 +410,7 @@ def validate_call_files(ck, name, files, what):
                          {"signature": sig, "kind": what, "ctx": ctx if len(pats_s) < 5000 else {"mk": ctx["mk"]},
                           "event": {k: v for k, v in ev.items() if k != "calls"}, "call": call, "why": r["why"]})
     ck.distinct += distinct_calls(fs)
+    ck.call_count = getattr(ck, "call_count", 0) + total_calls(fs)
     return nrej, results, fs
 
 
@@ -396,8 +439,8 @@ def guard(ck, name, scale=1, shards=8):
     files = ["%s.%d.ndjson" % (prefix, i) for i in range(shards)]
     nrej, results, fs = validate_call_files(ck, "guard_" + name, files, "guard")
     ck.traces += cur["cases"]
-    ck.evaluations += cur["cases"]
-    ck.stage("guard-pages", cases=cur["cases"], rejected=nrej, status=0,
+    ck.evaluations += total_calls(fs)
+    ck.stage("guard-pages", cases=cur["cases"], calls=total_calls(fs), rejected=nrej, status=0,
              wall=round(max([x.wall for x in results] or [0]), 1))
     if fs:
         ev = read_ndjson_line(fs[0], 2)
